@@ -657,3 +657,77 @@ def r_chunkinit(db, rep):
                          "%s bounds the scan of a compressed bucket header by %s; its siblings use maxcomplength (the longest compressed "
                          "header): a header longer than that bound is cut and the rest is decoded from zero bits" % (f.qn, p[1]), f.qn)
 
+    # the input budget of a scan (b_remain: bytes of *compressed* text the decoder may consume) is never taken from the longest
+    # *decoded* string: in a class that records maxcomplength, an initial b_remain computed from maxlength is the wrong quantity
+    # (a string over rare bytes is longer compressed than plain) - its siblings use maxcomplength or the bucket's byte range
+    for f in sorted(db.funcs.values(), key=lambda x: (x.file, x.line)):
+        if not f.body or not f.rec or db.field(f.rec, "maxcomplength") is None:
+            continue
+        budgets = []
+        for n in f.live_nodes():
+            if n["k"] == "InitListExpr" and "b_remain" in (n.get("fields") or []):
+                i = n["fields"].index("b_remain")
+                if i < len(n.get("inits") or []) and n["inits"][i] is not None:
+                    budgets.append((n["inits"][i], n))
+        for lv, w in written_lvalues(f):
+            sx = strip(lv)
+            if sx["k"] == "MemberExpr" and sx.get("rec") == "ChunkScan" and sx.get("n") == "b_remain" and w.get("op") == "=" and w.get("rhs") is not None:
+                budgets.append((w["rhs"], w))
+        for rhs, w in budgets:
+            sb = SeqBuilder(db, f, "c", nosubst=True)
+            v = sb.sym(rhs)
+            ats = symx.atoms(v)
+            rep.visit(f)
+            rep.inst(f.nloc(w), "%s gives a chunk scan the input budget %s" % (f.qn, canon(v)))
+            rep.ob()
+            if ("field", ("this", "maxlength")) in ats and ("field", ("this", "maxcomplength")) not in ats:
+                rep.viol("%s#input-budget-maxlength" % f.qn, f.nloc(w),
+                         "%s lets the chunk decoder consume %s bytes of compressed text: a budget taken from the longest decoded string, "
+                         "where the other scans of the class use maxcomplength; a string whose code is longer than that is cut short and the "
+                         "decoder runs on from whatever follows" % (f.qn, canon(v)), f.qn)
+
+
+# ---------------------------------------------------------------------------------------------------
+@rule("R-ITERSTATE", 15, "iterator state parity: every field that an iterator's public protocol (hasNext, next, size - own or "
+                         "inherited) reads is assigned by each constructor of the concrete iterator class (directly, through a base "
+                         "constructor or a helper it calls), unless the protocol methods assign it themselves")
+def r_iterstate(db, rep):
+    import rules_state
+    for base, k in iterator_classes(db):
+        ctors = [c for c in db.methods_of(k) if c.is_ctor and c.body is not None and c.access == "public"]
+        # instantiated somewhere in the code base? (abstract bases are not)
+        made = any(n["k"] == "CXXConstructExpr" and n.get("rec") == k for f in db.funcs.values() if f.body for n in f.nodes())
+        if not ctors or not made:
+            continue
+        chain = [k] + list(db.all_bases(k))
+        protocol = []
+        for name in ("hasNext", "next", "size"):
+            for r in chain:
+                ms = [m for m in db.methods_of(r, name) if m.body is not None]
+                if ms:
+                    protocol += ms
+                    break
+        reads, self_assigned = {}, set()
+        for m in protocol:
+            for fid in db.closure([m]):
+                g = db.funcs[fid]
+                if g.rec not in chain:
+                    continue
+                for key, v in rules_state.read_fields(db, g).items():
+                    if key[0] in chain:
+                        reads.setdefault(key, (g, v[0]))
+                self_assigned |= {key for key in rules_state.assigned_fields(db, g) if key[0] in chain}
+        for c in ctors:
+            rep.visit(c)
+            assigned = set()
+            for fid in db.closure([c]):
+                g = db.funcs[fid]
+                assigned |= set(rules_state.assigned_fields(db, g))
+            rep.inst(c.loc, "%s: %d fields read by hasNext/next/size" % (c.qn, len(reads)))
+            for key, (g, line) in sorted(reads.items()):
+                rep.ob()
+                if key in assigned or key in self_assigned:
+                    continue
+                rep.viol("%s/%d#%s-unset" % (k, len(c.params), key[1]), "%s:%s" % (g.file, line),
+                         "%s reads %s::%s, which the constructor %s (%s) never assigns: an iterator of this class answers from an "
+                         "indeterminate value" % (g.qn, key[0], key[1], c.qn, c.loc), g.qn)
